@@ -167,4 +167,31 @@ theorem reinit_keys (st : NodeSt) (req : ReinitReq) (now : Time) (payloadOf : Ta
         simp only [saveFSM]
         exact lookupS_assocSet_eq _ _ _
 
+theorem takeWhile_all {α : Type} (q : α → Bool) (l : List α) (h : ∀ x ∈ l, q x = true) : l.takeWhile q = l := by
+  induction l with
+  | nil => rfl
+  | cons x rest ih =>
+    simp only [List.takeWhile_cons, h x (List.mem_cons_self), ↓reduceIte]
+    rw [ih (fun y hy => h y (List.mem_cons_of_mem _ hy))]
+
+theorem takeWhile_stop {α : Type} (q : α → Bool) (l after : List α) (p : α) (h : ∀ x ∈ l, q x = true) (hp : q p = false) :
+    (l ++ p :: after).takeWhile q = l := by
+  induction l with
+  | nil => simp [hp]
+  | cons x rest ih =>
+    simp only [List.cons_append, List.takeWhile_cons, h x (List.mem_cons_self), ↓reduceIte]
+    rw [ih (fun y hy => h y (List.mem_cons_of_mem _ hy))]
+
+/-- **KNOWN FINDING C20-early-signing-proposal, on the model.** The replay is cut at the first signing proposal in the file,
+whatever round it names and whether or not any node ever accepted it: the messages after it - the rest of the key
+generation, if the proposal was posted early - are not replayed. (`GenerateReDKGMessage` cuts the file the same way.)
+reinitdiff shows the consequence on real nodes: scenario `early-signing-proposal=true`. -/
+theorem early_signing_proposal_cuts_the_replay (self R : String) (skip0 : Bool) (now : Time) (payloadOf : Tasks.Msg → Bytes) (st : NodeSt)
+    (before after : List InnerMsg) (p : InnerMsg) (hp : p.msg.event = "event_signing_start")
+    (hb : ∀ im ∈ before, im.msg.event ≠ "event_signing_start") :
+    reinitLoop self R skip0 now payloadOf st (before ++ p :: after) = reinitLoop self R skip0 now payloadOf st before := by
+  unfold reinitLoop beforeSigning
+  have hall : ∀ im ∈ before, (im.msg.event != "event_signing_start") = true := fun im him => by simpa using hb im him
+  rw [takeWhile_stop _ before after p hall (by simp [hp]), takeWhile_all _ before hall]
+
 end Dc4bcVerif.Props.C20Node
